@@ -175,9 +175,10 @@ fn gen_text(r: &mut Rng, uid: bool) -> String {
     }
 }
 
-fn small_int(r: &mut Rng) -> i64 {
-    // boundary values of the 16- and 32-bit kinds (every `as` cast of extend_* is exercised at its wrap point)
-    if r.chance(1, 2) {
+fn small_int(r: &mut Rng, wide: bool) -> i64 {
+    // boundary values of the 16- and 32-bit kinds (every `as` cast of extend_* is exercised at its wrap point);
+    // not onto 32-bit float targets: `n as f32` rounds above 2^24, the model keeps floats exact (half units)
+    if wide && r.chance(1, 2) {
         return *r.pick(&[0x7FFF, 0x8000, 0xFFFF, 0x10000, 0x7FFF_FFFF, 0x8000_0000, 0xFFFF_FFFF, -0x8000_0000i64, -0x8001, 3_000_000_000]);
     }
     match r.below(10) {
@@ -446,19 +447,19 @@ fn main() {
                         }
                         match kind {
                             0 => {
-                                let n = small_int(&mut r) as i32;
+                                let n = small_int(&mut r, cur_class != Some(Class::F32)) as i32;
                                 break (AttributeAction::PushI32(n), format!("pushnum i32 {n}"));
                             }
                             1 => {
-                                let n = small_int(&mut r).unsigned_abs() as u32;
+                                let n = small_int(&mut r, cur_class != Some(Class::F32)).unsigned_abs() as u32;
                                 break (AttributeAction::PushU32(n), format!("pushnum u32 {n}"));
                             }
                             2 => {
-                                let n = small_int(&mut r) as i16;
+                                let n = small_int(&mut r, cur_class != Some(Class::F32)) as i16;
                                 break (AttributeAction::PushI16(n), format!("pushnum i16 {n}"));
                             }
                             3 => {
-                                let n = small_int(&mut r) as u16;
+                                let n = small_int(&mut r, cur_class != Some(Class::F32)) as u16;
                                 break (AttributeAction::PushU16(n), format!("pushnum u16 {n}"));
                             }
                             4 => {
